@@ -249,7 +249,10 @@ def h5(ctx: Ctx):
     bad = {}
     n = 0
     for s, how, node in exits:
-        looks_ip = truth(colon, s.facts) is True or truth(digit, s.facts) is True
+        # an exit that has not gone through the probe must know that the host neither contains ':' nor ends in a digit
+        # (an empty host does neither)
+        empty = truth(hostp, s.facts) is False
+        looks_ip = not empty and (truth(colon, s.facts) is not False or truth(digit, s.facts) is not False)
         if not looks_ip:
             continue
         n += 1
@@ -292,6 +295,12 @@ def h6(ctx: Ctx):
         parts = flatten(v)
         lits = [p_[1] for p_ in parts if p_[0] == "lit"]
         vals = [p_ for p_ in parts if p_[0] != "lit"]
+        # a zone id that is known to be present on the path (the '%' separator of a partition is non-empty, or the text after
+        # it is) must be part of the result
+        lw = Lower(model, fi, r)
+        zoned = any(fv is True and (lw.sep(k) or lw.zone(k)) for k, fv in s.facts.items())
+        if zoned and "%" not in lits and not any("%" in l for l in lits):
+            bad.append((node, f"the result {show(v)[:60]} leaves out a zone id that is present"))
         if ver[0] is True:
             n6 += 1
             shape = [p_[1] if p_[0] == "lit" else None for p_ in parts]
@@ -302,6 +311,17 @@ def h6(ctx: Ctx):
                 bad.append((node, f"IPv4 result {show(v)[:60]} carries brackets"))
             elif len(vals) == 2 and lits != ["%"]:
                 bad.append((node, f"IPv4 result {show(v)[:60]}: address and zone are not joined by '%'"))
+    # the function cuts a zone id out of its argument: some result of each IP version must carry it
+    lw0 = Lower(model, fi, r)
+    cuts_zone = any(lw0.zone(t) for e in r.events for val in e.data.values() if isinstance(val, tuple) and val and isinstance(val[0], str)
+                    for t in walk(val))
+    if cuts_zone:
+        for want6 in (True, False):
+            rets = [(s, v, node) for s, v, node in r.returns
+                    if [fv for k, fv in s.facts.items() if k[0] == "cmp" and k[1] == "Eq" and ("const", 6) in (k[2], k[3]) and
+                        "version" in show(k)][:1] == [want6]]
+            if rets and not any(lw0.zone_parts(v) for _s, v, _n in rets):
+                bad.append((rets[0][2], f"a zone id is cut out of the host but no IPv{6 if want6 else 4} result carries one: it is dropped"))
     if not n6:
         raise AnalysisError(f"{ENC}: no return path knows `ip.version == 6`: the IPv6 branch was not recognised (unknown idiom)")
     ctx.instance(rule)
